@@ -24,7 +24,7 @@ TCall == /\ IsEvent("Call") /\ verdict # "none"
          /\ pc' = 1 /\ verdict' = "none" /\ fetches' = <<>> /\ dp' = 1
 
 Silent == /\ l <= Len(Trace) /\ UNCHANGED l
-          /\ \/ CheckQuote \/ ExtractChain \/ ExtractCa \/ VerifyChain \/ VerifyCollateral
+          /\ \/ RootOfTrust \/ CheckQuote \/ ExtractChain \/ ExtractCa \/ VerifyChain \/ VerifyCollateral
              \/ VerifyTcbInfo \/ VerifyQeIdentity \/ VerifyQuote \/ Accept
              \/ (fetches' = fetches /\ (FetchTcbInfo \/ FetchQeIdentity \/ FetchPckCrl \/ FetchRootCrl))
 
